@@ -28,6 +28,26 @@ def sym_bytes(st, name, n):
     return mk("bytes", [st.byte_var("%s_%d" % (name, i)) for i in range(n)])
 
 
+HEXDOM = [(0x30, 0x39), (0x41, 0x46), (0x61, 0x66)]
+
+
+def sym_tokens(st, name, shape):
+    """A string made of tokens: 'c' = any code point, 'E' = a percent-escape '%XY' with two
+    symbolic hex digits (either case), 'e' = an escape of a byte >= 0x80 (first digit 8-f)."""
+    out = []
+    for i, t in enumerate(shape):
+        if t == "c":
+            out.append(st.char_var("%s_%d" % (name, i)))
+        elif t in "Ee":
+            out.append(37)
+            d1 = [(0x38, 0x39), (0x41, 0x46), (0x61, 0x66)] if t == "e" else HEXDOM
+            out.append(st.char_var("%s_%dh" % (name, i), d1))
+            out.append(st.char_var("%s_%dl" % (name, i), HEXDOM))
+        else:
+            out.append(ord(t))
+    return mk("str", out)
+
+
 def cat(*parts):
     out = []
     for p in parts:
